@@ -27,7 +27,19 @@ func VerifC09TAQuiescence() {
 	machine := verifParam("machine", 0)
 	_, _, ncpu := verifMachine(machine)
 	allowed, reserved, isolated := verifSymbolicConstraints(ncpu, verifParam("constraints", 0))
-	w := verifNewPolicy(machine, allowed, reserved, isolated, verifDefaultConfig())
+	cfg := verifDefaultConfig()
+	if verifParam("constraints", 0) == 3 {
+		// kernel-isolated CPUs: preferIsolatedCPUs not configured, true or false
+		switch verifChoice("preferIsolated", 3) {
+		case 1:
+			v := true
+			cfg.PreferIsolated = &v
+		case 2:
+			v := false
+			cfg.PreferIsolated = &v
+		}
+	}
+	w := verifNewPolicy(machine, allowed, reserved, isolated, cfg)
 	pristine := w.supplySnapshot()
 	allocs := verifParam("allocs", 2)
 	for k := 0; k < allocs; k++ {
@@ -440,4 +452,61 @@ func VerifC11TAResync() {
 		told = verifAnd(told, verifAnd(c.cpusCalls > 0, c.memsCalls > 0))
 	}
 	verifAssert("C11.ta.resync-tells-every-assignment-again", told)
+}
+
+// VerifC13TAReconfigureAccepted: an ACCEPTED configuration change. After a
+// short history the available cpuset shrinks (or the reserved CPU moves), so
+// that grants may no longer be reinstated verbatim and containers are
+// re-allocated: afterwards every container that holds a grant satisfies the
+// C01 / C03 sentences under the new configuration (exclusive CPUs inside the
+// new available set and disjoint, ledgers equal to what the grants promise,
+// capacity respected).
+func VerifC13TAReconfigureAccepted() {
+	machine := verifParam("machine", 0)
+	_, _, ncpu := verifMachine(machine)
+	allowed, reserved, isolated := verifSymbolicConstraints(ncpu, 0)
+	cfg := verifTAConfig("cpuset:0")
+	w := verifNewPolicy(machine, allowed, reserved, isolated, cfg)
+	for k := 0; k < verifParam("allocs", 2); k++ {
+		c := w.newContainer(int64(verifParam("maxMilli", 2000)))
+		w.p.AllocateResources(c)
+	}
+	w.checkC01()
+	newCfg := verifTAConfig("cpuset:0")
+	switch verifChoice("change", 4) {
+	case 0:
+		newCfg.AvailableResources = cfgapi.Constraints{cfgapi.CPU: "cpuset:0,2-7"}
+	case 1:
+		newCfg.AvailableResources = cfgapi.Constraints{cfgapi.CPU: "cpuset:0-3,5-7"}
+	case 2:
+		newCfg.AvailableResources = cfgapi.Constraints{cfgapi.CPU: "cpuset:0-5"}
+	case 3:
+		newCfg = verifTAConfig("cpuset:1")
+	}
+	if err := w.p.Reconfigure(newCfg); err != nil {
+		// containers that do not fit the new configuration make it fail: the
+		// rejected-update sentences are VerifC13TAReconfigure's
+		verifCover("changed-config-rejected")
+		return
+	}
+	verifCover("changed-config-accepted")
+	verifAssert("C13.ta.accepted.every-container-keeps-an-allocation", len(w.p.allocations.grants) == func() int {
+		n := 0
+		for _, c := range w.ctrs {
+			if w.grantOf(c) != nil {
+				n++
+			}
+		}
+		return n
+	}())
+	inside := true
+	for _, c := range w.ctrs {
+		if g := w.grantOf(c); g != nil {
+			inside = verifAnd(inside, g.ExclusiveCPUs().IsSubsetOf(w.p.allowed))
+			inside = verifAnd(inside, c.pinned().IsSubsetOf(w.p.allowed))
+		}
+	}
+	verifAssert("C13.ta.accepted.assignments-inside-new-available-set", inside)
+	w.checkC01()
+	w.checkC03()
 }
